@@ -4,7 +4,7 @@
    cloudpickle copies the class dictionary by value; since fix commit 67a4bcc the identity-compared markers
    survive that copy, so both are the identity on `built` (validated by the correspondence, not proved:
    pickle / cloudpickle machinery is third-party). *)
-From JT Require Import model.Annot proofs.AnnotFacts.
+From JT Require Import model.Annot proofs.AnnotFacts proofs.AnnotAcceptFacts.
 Open Scope string_scope.
 
 (* annotations built directly ... *)
@@ -31,3 +31,20 @@ Theorem C20_old_reducer_refuted :
   exists b b', wf_built b /\ reduce_rebuild_old b = MBuilt b' /\ b_dtypes b' <> b_dtypes b.
 Proof. exact old_reducer_refuted. Qed.
 Print Assumptions C20_old_reducer_refuted.
+
+(* "accepting exactly the same values": for every value, symbol table and context, a check against the annotation that comes back
+   gives the same verdict AND leaves the same bindings as a check against the original; the result is again well-formed *)
+Theorem C20_rebuilt_accepts_exactly_the_same : forall b, wf_built b ->
+  exists b', reduce_rebuild b = MBuilt b' /\ wf_built b' /\
+             (forall st cls v s, check_built st b' cls v s = check_built st b cls v s) /\
+             (forall st x s, accepts_one st (MBuilt b') x s = accepts_one st (MBuilt b) x s).
+Proof. exact reducer_accepts_same. Qed.
+Print Assumptions C20_rebuilt_accepts_exactly_the_same.
+
+(* ... so it can be sent on any number of times (process to process, pickle of an unpickled annotation) *)
+Theorem C20_sent_any_number_of_times : forall n b, wf_built b ->
+  exists b', resend n b = MBuilt b' /\ wf_built b' /\
+             (forall st cls v s, check_built st b' cls v s = check_built st b cls v s) /\
+             (forall st x s, accepts_one st (MBuilt b') x s = accepts_one st (MBuilt b) x s).
+Proof. exact resend_accepts_same. Qed.
+Print Assumptions C20_sent_any_number_of_times.
